@@ -168,6 +168,18 @@ def _make(arr, payload, space_dim=2, origin=None, cls=None):
     return (cls or darsia.Image)(arr, **kw)
 
 
+def _call_keep(chk, opname, fn, *imgs):
+    """Run the operation; its input images (data, placement, every metadata container) must be
+    left as they were -- 'the image it came from' is still the same image after the call."""
+    from mc.canon import digest
+
+    pre = [digest(i) for i in imgs]
+    out = fn()
+    for k, (i, p0) in enumerate(zip(imgs, pre)):
+        chk(digest(i) == p0, f"C11/{opname}/input-unchanged", "the operation leaves the image it was given unchanged (data and placement), so result and source can still be compared after the call", input_index=k, shape=list(i.img.shape), dtype=str(i.img.dtype))
+    return out
+
+
 def _basis(spatial, payload, dtype):
     """Impulse basis (+ pair combinations) for arrays of shape spatial + payload."""
     n = int(np.prod(spatial))
@@ -362,7 +374,8 @@ def _run_resize(case, r):
 
         rs = darsia.Resize(shape=tgt, interpolation="inter_area", **opts)
         for arr in basis + [gen]:
-            out = rs(_make(arr.copy(), pl))
+            src_ = _make(arr.copy(), pl)
+            out = _call_keep(chk, "resize", lambda: rs(src_), src_)
             judge(out, arr, "shape")
         r.outcome(("resize", shape, str(dt), pl, tgt, np.round(np.asarray(out.img, dtype=np.float64), 4).tolist()))
         # other ways to state the same target (generic data)
@@ -449,7 +462,7 @@ def _run_refine(case, r):
             img = _make(arr.copy(), pl)
             before_geo, before_ref = _geo(img), _integral(arr, dims, 2)
             try:
-                out = darsia.uniform_refinement(img, lev)
+                out = _call_keep(chk, "uniform_refinement", lambda: darsia.uniform_refinement(img, lev), img)
             except Exception as e:  # no refusal is documented for any level / shape
                 chk(False, base + "/usable", "uniform_refinement is usable for every shape and level of the quantifier", level=lev, exception=f"{type(e).__name__}: {e}")
                 last = "raised"
@@ -492,7 +505,7 @@ def _run_extrude(case, r):
             for arr in data:
                 img = _make(arr.copy(), pl, origin=USER_ORIGIN[2])
                 i2_geo, i2_ref = _geo(img), _integral(arr, dims, 2)
-                out = darsia.extrude_along_axis(img, height, num)
+                out = _call_keep(chk, "extrude", lambda: darsia.extrude_along_axis(img, height, num), img)
                 c = f"C11/extrude/{{}}/{pl}"
                 ok = chk(out.space_dim == 3 and tuple(out.img.shape) == (num,) + arr.shape, c.format("shape"), "the extruded image is 3-D with `num` layers in front of the 2-D axes", num=num, got=list(out.img.shape))
                 chk(_dims(out) == [height] + dims, c.format("extent"), "extents of the retained axes are kept, the new axis has the extrusion height", num=num, height=height, got=_dims(out))
@@ -522,7 +535,7 @@ def _run_reduce(case, r):
             for arr in data:
                 img = _make(arr.copy(), pl, space_dim=dim, origin=origin)
                 parent_geo, parent_ref = _geo(img), _integral(arr, dims, dim)
-                out = darsia.reduce_axis(img, axis, mode=mode)
+                out = _call_keep(chk, "reduce_axis", lambda: darsia.reduce_axis(img, axis, mode=mode), img)
                 # reference: accumulate the slices along matrix axis p, in the data type
                 acc = np.zeros(tuple(s for a, s in enumerate(arr.shape) if a != p), dtype=dt)
                 for i in range(shape[p]):
@@ -589,7 +602,7 @@ def _run_superpose_shared(case, r):
         data_sets.append([(_generic(shape, pl, dt) * (i + 1) - 3 * i).astype(dt) for i in range(k)])
         for arrs in data_sets:
             imgs = [_scalar_image(a.copy(), vs, origin, pl == "series") for a in arrs]
-            out = darsia.superpose(imgs)
+            out = _call_keep(chk, "superpose", lambda: darsia.superpose(imgs), *imgs)
             want = np.zeros(shape + chan, dtype=np.float64)
             for a in arrs:
                 want = want + a
@@ -639,7 +652,7 @@ def _run_superpose_offset(case, r):
         imgs = []
         for a, (ro, co) in zip(arrs, placed):
             imgs.append(_scalar_image(a.copy(), vs, [x0 + co * vs[1], ytop - ro * vs[0]], False))
-        out = darsia.superpose(imgs)
+        out = _call_keep(chk, "superpose", lambda: darsia.superpose(imgs), *imgs)
         rmin = min(ro for ro, _ in placed)
         cmin = min(co for _, co in placed)
         rmax = max(ro + s[0] for (ro, _), s in zip(placed, shapes))
